@@ -411,6 +411,8 @@ class MultiFit(FitBase):
             if self._fits[_fit_index].data_size != _data_size_0:
                 raise ValueError("Fit %s data_size not the same as data_size of Fit 0!" % _fit_index)
 
+        if axis is None:  # all members are single-axis fits
+            axis = "y"
         if error_object.relative:
             if reference not in ("data", "model"):
                 raise ValueError("Error reference must be either 'model' or 'data' but received %s" % reference)
@@ -440,8 +442,6 @@ class MultiFit(FitBase):
                         )
             error_object.reference = _reference_value
 
-        if axis is None:
-            axis = "y"
         if name in self._shared_error_dicts:
             raise ValueError("Error with name=%s already exists!" % name)
         if name is None:
